@@ -651,6 +651,40 @@ func c07GenJunk(r *Rng) c07Item {
 	}
 }
 
+// direct sweep of tcp/coder.DecodeHeader over every prefix of a header
+func c07HdrCase(e *Emitter, bs []byte) {
+	var obs []string
+	stableNT := false
+	for n := 0; n <= len(bs); n++ {
+		var h tcpcoder.MessageHeader
+		kind, hl, ml, code, tkl := 9, 0, uint32(0), 0, 0
+		func() {
+			defer func() {
+				if r := recover(); r != nil {
+					kind = 7
+				}
+			}()
+			l, err := tcpcoder.DefaultCoder.DecodeHeader(bs[:n:n], &h)
+			switch {
+			case err == nil:
+				kind, hl, ml, code, tkl = 1, l, h.MessageLength, int(h.Code), len(h.Token)
+				if uint32(l) != h.Length {
+					kind = 9
+				}
+				stableNT = true
+			case errors.Is(err, message.ErrShortRead):
+				kind = 0
+			case errors.Is(err, message.ErrInvalidTokenLen):
+				kind = 3
+			case errors.Is(err, message.ErrInvalidEncoding):
+				kind = 4
+			}
+		}()
+		obs = append(obs, fmt.Sprintf("HO %d %d %d %d %d", kind, hl, ml, code, tkl))
+	}
+	e.Add(fmt.Sprintf("Hdr %s [%s]", coqBytes(bs), strings.Join(obs, ";")), "h="+hex.EncodeToString(bs), stableNT, "kind:hdr-sweep")
+}
+
 type c07Stream struct {
 	cache, max int
 	items      []c07Item
@@ -791,6 +825,14 @@ func runC07(a runArgs) error {
 	e.MaxBytes = 80000
 	e.Preamble = "From GoCoap Require Import Stream.Spec."
 	e.Rule = "case = one stream (1-7 items: messages encoded by the real tcp coder over all Len-nibble classes, token lengths 0-8, ordinary and 7.xx codes, option deltas/lengths in all three extension classes; optionally an oversize/wrapping/malformed raw header or a trailing partial frame at a random position) x one chunking (1-byte, coalesced, cuts inside headers, cuts at frame boundaries with empty reads, random 1-7, random 0-400) x cache size {1,7,2048,65535} x max message size {64,300,1152,65816,66000,70000}, run on the real tcp/client.Conn over a scripted net.Conn. Distinct = distinct descriptor; non-trivial = at least two items or at least two reads."
+	if strings.HasPrefix(a.only, "h=") {
+		bs, err := hex.DecodeString(a.only[2:])
+		if err != nil {
+			return err
+		}
+		c07HdrCase(e, bs)
+		return e.Flush(a.out)
+	}
 	if a.only != "" {
 		c, err := c07ParseCase(a.only)
 		if err != nil {
@@ -802,7 +844,7 @@ func runC07(a runArgs) error {
 		return e.Flush(a.out)
 	}
 	rng := NewRng(a.seed)
-	nstreams, nbig := 330, 3
+	nstreams, nbig := 280, 3
 	if a.tier == "thorough" {
 		nstreams, nbig = 1500, 24
 	}
@@ -832,6 +874,25 @@ func runC07(a runArgs) error {
 					}
 				}
 			}
+		}
+	}
+	// DecodeHeader on every prefix: all 256 Len/TKL bytes x extended-length patterns
+	exts := [][]byte{{0, 0, 0, 0}, {0xff, 0xff, 0xff, 0xff}, {0x7f, 0xff, 0x00, 0x00}, {0x7f, 0xff, 0x00, 0x01}, {0xff, 0xfe, 0xfe, 0xf3}, {0xff, 0xfe, 0xfe, 0xe0}}
+	nrnd := 0
+	if a.tier == "thorough" {
+		nrnd = 12
+	}
+	for b0 := 0; b0 < 256; b0++ {
+		pats := append([][]byte{}, exts...)
+		for k := 0; k < nrnd; k++ {
+			pats = append(pats, be32(uint32(rng.U64())))
+		}
+		for _, x := range pats {
+			bs := append([]byte{byte(b0)}, x...)
+			bs = append(bs, genBody(rng.Intn(250), 18)...)
+			// cut behind the header so that every prefix length up to two bytes past the header is covered
+			ext := map[int]int{13: 1, 14: 2, 15: 4}[b0>>4]
+			c07HdrCase(e, bs[:minInt(len(bs), 1+ext+1+(b0&15)+2)])
 		}
 	}
 	for i := 0; i < nstreams+nbig; i++ {
